@@ -117,6 +117,8 @@ type pool struct {
 	restarts int
 }
 
+var createdID = regexp.MustCompile(`"id"\s*:\s*"?(\d+)`)
+
 var panicLine = regexp.MustCompile(`(?m)^(panic|fatal error): (.*)$`)
 
 // do serves one request; a dead or silent worker is replaced.
@@ -965,6 +967,50 @@ func gen(c *lib.Ctx, rng *rand.Rand) []c08case {
 			}
 		}
 	}
+	// query strings: the keys the handlers read, repeated, in every order, with empty values, without
+	// '=', with stray '&' - on every route that reads the query
+	{
+		kv := [][2]string{{"nowMS", "210000"}, {"nowDate", "1970-01-01T00:03:30Z"}, {"publishTime", "1970-01-01T00:03:20Z"}}
+		var qs []string
+		for _, a := range kv {
+			for _, b := range kv {
+				qs = append(qs, a[0]+"="+a[1]+"&"+b[0]+"="+b[1])
+				for _, d := range kv {
+					qs = append(qs, a[0]+"="+a[1]+"&"+b[0]+"="+b[1]+"&"+d[0]+"="+d[1])
+				}
+			}
+		}
+		n := len(qs)
+		for i := 0; i < n; i++ {
+			q := qs[i]
+			switch i % 6 {
+			case 0:
+				qs = append(qs, q+"&")
+			case 1:
+				qs = append(qs, "&"+q)
+			case 2:
+				qs = append(qs, strings.Replace(q, "&", "&&", 1))
+			case 3:
+				qs = append(qs, q[:strings.LastIndex(q, "=")+1]) // last value empty
+			case 4:
+				qs = append(qs, q[:strings.LastIndex(q, "=")]) // last key without '='
+			case 5:
+				qs = append(qs, q+"&"+q[strings.LastIndex(q, "&")+1:]) // last pair once more
+			}
+		}
+		qs = append(qs, "", "&", "=", "nowMS", "nowMS=", "publishTime", "publishTime=&nowMS=210000", "nowMS=210000&nowMS=x", "nowMS=x&nowMS=210000", "a=%zz", "nowMS=210000;publishTime=x")
+		routes := []string{"/patch/livesim2/segtimeline_1/patch_60/testpic_2s/Manifest.mpp", "/livesim2/segtimeline_1/testpic_2s/Manifest.mpd", "/livesim2/testpic_2s/V300/100.m4s",
+			"/urlgen/create", "/patch/livesim2/patch_60/testpic_2s/Manifest.mpp"}
+		for ri, rt := range routes {
+			for qi, q := range qs {
+				if !c.Thorough() && ri >= 3 && (ri+qi)%3 != 0 {
+					continue
+				}
+				kind := "router"
+				add(c08case{Group: "query-shapes", Expect: "deliberate", Why: "query string shape", Req: c08req{Kind: kind, Method: "GET", URL: rt + "?" + q}})
+			}
+		}
+	}
 	// licence requests
 	kidOK := append([]byte{0x28, 0x80, 0xfe}, []byte{1, 2, 3, 4, 5, 6, 7, 8, 9, 10, 11, 12, 13}...)
 	kidForeign := []byte{1, 2, 3, 4, 5, 6, 7, 8, 9, 10, 11, 12, 13, 14, 15, 16}
@@ -1015,16 +1061,52 @@ func gen(c *lib.Ctx, rng *rand.Rand) []c08case {
 	// 7. a step-wise CMAF-ingest session through the API, in order, on the sequential worker (last:
 	// a hang ends that worker): the sink refuses connections, the session has 2 segments to send
 	apiSeq := func(method, url, body string) {
-		cs = append(cs, c08case{Group: "api:step-session", Req: c08req{Kind: "apiseq", Method: method, URL: url, Body: []byte(body),
-			Hdr: map[string]string{"Content-Type": "application/json"}}})
+		cs = append(cs, c08case{Group: "api:step-session", Expect: "deliberate", Why: "API call in a session sequence",
+			Req: c08req{Kind: "apiseq", Method: method, URL: url, Body: []byte(body), Hdr: map[string]string{"Content-Type": "application/json"}}})
 		c.Count("api:step-session")
+	}
+	// every order of step / get / delete after a create, with repeats (delete twice, step after delete,
+	// get after delete ...), each on a session of its own; {id} is the id the create returned
+	{
+		create := `{"destRoot":"http://127.0.0.1:9","destName":"d","livesimURL":"/livesim2/testpic_2s/Manifest.mpd","testNowMS":100000,"duration":4}`
+		ops := map[byte][2]string{'S': {"GET", "/api/cmaf-ingests/{id}/step"}, 'G': {"GET", "/api/cmaf-ingests/{id}"}, 'D': {"DELETE", "/api/cmaf-ingests/{id}"}}
+		var seqs []string
+		for _, a := range "SGD" {
+			seqs = append(seqs, string(a))
+			for _, b := range "SGD" {
+				seqs = append(seqs, string(a)+string(b))
+				for _, d := range "SGD" {
+					x := string(a) + string(b) + string(d)
+					if c.Thorough() || strings.Count(x, "S") == 0 || x == "DDS" || x == "DSD" || x == "SDD" {
+						seqs = append(seqs, x)
+					}
+				}
+			}
+		}
+		for _, sq := range seqs {
+			apiSeq("POST", "/api/cmaf-ingests", create)
+			for k := 0; k < len(sq); k++ {
+				o := ops[sq[k]]
+				apiSeq(o[0], o[1], "")
+			}
+		}
+		// several sessions alive at once, then deleted in another order; unknown and malformed ids
+		for k := 0; k < 3; k++ {
+			apiSeq("POST", "/api/cmaf-ingests", create)
+		}
+		for _, id := range []string{"{id}", "{id}", "999999", "0", "-1", "x", "18446744073709551616", "1.5", ""} {
+			apiSeq("DELETE", "/api/cmaf-ingests/"+id, "")
+			apiSeq("GET", "/api/cmaf-ingests/"+id, "")
+		}
+		apiSeq("GET", "/api/cmaf-ingests/999999/step", "")
+		apiSeq("GET", "/api/cmaf-ingests/x/step", "")
 	}
 	apiSeq("POST", "/api/cmaf-ingests", `{"destRoot":"http://127.0.0.1:9","destName":"d","livesimURL":"/livesim2/testpic_2s/Manifest.mpd","testNowMS":100000,"duration":4}`)
 	for i := 0; i < 2; i++ {
-		apiSeq("GET", "/api/cmaf-ingests/1/step", "")
+		apiSeq("GET", "/api/cmaf-ingests/{id}/step", "")
 	}
-	apiSeq("DELETE", "/api/cmaf-ingests/1", "")
-	apiSeq("GET", "/api/cmaf-ingests/1/step", "")
+	apiSeq("DELETE", "/api/cmaf-ingests/{id}", "")
+	apiSeq("GET", "/api/cmaf-ingests/{id}/step", "")
 	return cs
 }
 
@@ -1405,6 +1487,10 @@ func judge(c *lib.Ctx, id string, cs c08case, o c08obs) {
 		} else if strings.TrimSpace(o.Body) == "" {
 			c.Fail(id, "status:4xx-without-message", fmt.Sprintf("%s: %s: %d with an empty body", url, cs.Why, o.Status), in)
 		}
+	case "deliberate": // any status, but an error must carry a message (an empty 5xx is what the Recoverer leaves)
+		if o.Status >= 500 && strings.TrimSpace(o.Body) == "" {
+			c.Fail(id, fmt.Sprintf("status:%d-empty", o.Status), fmt.Sprintf("%s: %s: %d with an empty body", url, cs.Why, o.Status), in)
+		}
 	case "no5xx":
 		if o.Status >= 500 {
 			c.Fail(id, fmt.Sprintf("status:%d-for-patch-request", o.Status),
@@ -1447,6 +1533,9 @@ func runC08(c *lib.Ctx) error {
 				key = path.Dir(rq.URL) // the track directory
 			case "apiseq":
 				key = "apiseq"
+				if rq.Method == "POST" {
+					hist[key] = nil // a new session: its history starts here
+				}
 			}
 			if key == "" {
 				continue
@@ -1479,8 +1568,19 @@ func runC08(c *lib.Ctx) error {
 	runList := func(idx []int) {
 		defer wg.Done()
 		p := &pool{}
+		lastID := "0" // id of the session created last on this server ({id} in later URLs)
 		for _, i := range idx {
-			obs[i] = p.do(cases[i].Req)
+			rq := cases[i].Req
+			if strings.Contains(rq.URL, "{id}") {
+				rq.URL = strings.ReplaceAll(rq.URL, "{id}", lastID)
+				cases[i].Req.URL = rq.URL
+			}
+			obs[i] = p.do(rq)
+			if rq.Method == "POST" && strings.HasPrefix(rq.URL, "/api/cmaf-ingests") && obs[i].Class == "status" && obs[i].Status < 300 {
+				if m := createdID.FindStringSubmatch(obs[i].Body); m != nil {
+					lastID = m[1]
+				}
+			}
 		}
 		if p.w != nil {
 			p.w.stop()
@@ -1578,10 +1678,19 @@ func replayC08(c *lib.Ctx) error {
 		return err
 	}
 	p := &pool{}
+	lastID := "0"
+	sub := func(rq c08req) c08req { rq.URL = strings.ReplaceAll(rq.URL, "{id}", lastID); return rq }
 	for _, pr := range in.Prelude {
+		pr = sub(pr)
 		po := p.do(pr)
+		if pr.Method == "POST" && po.Class == "status" && po.Status < 300 {
+			if m := createdID.FindStringSubmatch(po.Body); m != nil {
+				lastID = m[1]
+			}
+		}
 		fmt.Printf("replay C08: (prelude) %s %s -> %s\n", pr.Method, pr.URL, classOf(po))
 	}
+	in.Req = sub(in.Req)
 	o := p.do(in.Req)
 	if p.w != nil {
 		p.w.stop()
